@@ -1,5 +1,60 @@
-import TransportVerif.Model.Ring
-import TransportVerif.Spec.Ring
+import TransportVerif.Link.Ring
+import TransportVerif.Proofs.Ring
+/-
+C06 — the packet buffer returns every written packet exactly once, intact, in write order.
+The statements below are FIXED; only the proofs may change.
+-/
 namespace TV.Props.C06
-theorem placeholder : True := trivial
+open TV TV.Ring TV.RingLink
+
+/-- Main theorem: for every build variant and EVERY operation list (writes of any content and
+length, reads into destinations of any length, limit changes, close), the ring model — head/tail
+arithmetic, 2-byte headers, wrap at the ring end, growth with linearisation — produces exactly the
+observations of the FIFO-of-packets spec: same results (including the bytes returned by every
+read, the short-buffer case, end-of-file) and the same Count and Size after every operation. -/
+theorem ring_refines_fifo (hard : Bool) (ops : List Ring.Op) :
+    obsModel (Ring.new hard) ops = obsSpec hard RingSpec.Fifo.new ops :=
+  Proofs.Ring.obs_refine ops (Ring.new hard) RingSpec.Fifo.new (Proofs.Ring.inv_new hard)
+
+/-- Packets of 65536 bytes or more and writes after Close are refused and leave the buffer
+    (contents, geometry, count) unchanged — for any ring state whatsoever. -/
+theorem refused_tooBig_or_closed_is_noop (r : Ring.Ring) (p : List UInt8)
+    (h : (r.write p).2 = .tooBig ∨ (r.write p).2 = .closedPipe) : (r.write p).1 = r := by
+  unfold Ring.write at h ⊢
+  split
+  · rfl
+  · split
+    · rfl
+    · rename_i h1 h2
+      rw [if_neg h1, if_neg h2] at h
+      split
+      · rfl
+      · rename_i h3
+        rw [if_neg h3] at h
+        split at h <;> simp at h
+
+theorem tooBig_iff (r : Ring.Ring) (p : List UInt8) : (r.write p).2 = .tooBig ↔ 65536 ≤ p.length := by
+  unfold Ring.write
+  by_cases h1 : p.length ≥ Ring.maxPacket
+  · rw [if_pos h1]
+    exact ⟨fun _ => h1, fun _ => rfl⟩
+  · rw [if_neg h1]
+    constructor
+    · intro h
+      split at h
+      · simp at h
+      · split at h
+        · simp at h
+        · split at h <;> simp at h
+    · intro h
+      exact absurd h h1
+
+-- non-vacuity: the statement has no hypotheses; a concrete instance (kept as a `theorem` so it
+-- can be proved by unfolding — `growUntil` is defined by well-founded recursion, which `decide`
+-- does not reduce)
+theorem example_run :
+    obsModel (Ring.new false) [.write [1, 2, 3], .read 2, .read 10, .close, .read 1]
+    = obsSpec false RingSpec.Fifo.new [.write [1, 2, 3], .read 2, .read 10, .close, .read 1] :=
+  ring_refines_fifo false _
+
 end TV.Props.C06
